@@ -122,6 +122,28 @@ func (s *BaseCompactionStrategy) LoadSSTables() error {
 	return nil
 }
 
+// coversDeeperLevels reports whether every table on the task's target level or deeper is an
+// input of the task (tables on shallower levels hold newer data and cannot resurrect a key).
+func (s *BaseCompactionStrategy) coversDeeperLevels(task *CompactionTask) bool {
+	inputs := make(map[string]bool)
+	for _, files := range task.InputFiles {
+		for _, file := range files {
+			inputs[file.Path] = true
+		}
+	}
+	for level, files := range s.levels {
+		if level < task.TargetLevel {
+			continue
+		}
+		for _, file := range files {
+			if !inputs[file.Path] {
+				return false
+			}
+		}
+	}
+	return true
+}
+
 // Close closes all open SSTable readers
 func (s *BaseCompactionStrategy) Close() error {
 	var lastErr error
